@@ -724,6 +724,11 @@ func corpusGE(cfg *config) []string {
 			onl(c.abeam*f, pl, po, a1, o1, a2, o2)
 		}
 	}
+	// positions a sixth of a turn and more from the line, abeam of it (were reported as on the line:
+	// the cross track had no haversine, and NaN passed every test)
+	onl(2, -10, -0.75, 50.857928, -0.752664, 50.857939, -0.752523)
+	onl(2, -23.7014, -0.7503, 50.85, -0.7503, 50.85, -0.7503)
+	onl(0.5, 50.86, 179.25, 50.857928, -0.752664, 50.857828, -0.752664)
 	// lines across the meridians 90 degrees west and east (a position on the line, one beside it
 	// within the tolerance, one beyond an end)
 	onl(1, 29.88, -90.000020721, 29.88, -90.000103603, 29.88, -89.999896397)
